@@ -4,7 +4,7 @@ PROP = 'C14'
 
 
 def run(tier):
-    histcheck.run(PROP, tier, lambda rnd, rep: dbgen.c14_history(rnd), 100, 5000,
+    histcheck.run(PROP, tier, lambda rnd, rep: dbgen.c14_history(rnd), 300, 6000,
                   rule='random clauses that start an enumeration (query or retract) of d/1 or e/1 and assert/retract/retractall on the '
                        'same predicate before the enumeration is resumed (failure-driven or by the consumer), plus the drain, '
                        'counter-update and grow loops; each run under a 10 s wall-clock budget (non-termination is a violation); '
